@@ -51,7 +51,7 @@ _reg("C19", engine="pbc", level="exploration",
            "non-zero image shift; distinct = distinct sequences of (operation, outcome, image-shift vector)."),
      components={"Residue.distance_to": REAL, "Residue/AtomGro": REAL},
      schedule_dimension="none (pure function of two points and a matrix; the harness contributes seeded generation and replay only)",
-     probes=["nonzero_image", "triclinic", "far_outside", "inv_flag", "point_argument"],
+     probes=["nonzero_image", "triclinic", "far_outside", "inv_flag", "point_argument", "box_as_nested_lists", "box_as_integer_array"],
      assumptions=["separations within 1e-6 of an exact half box are skipped, as the property states",
                   "triclinic boxes: moderate skew only (off-diagonal <= 0.45 of the diagonal); only symmetry/shift invariance/inverse flag are asserted there"])
 
@@ -60,7 +60,7 @@ _reg("C13", engine="grofile", level="exploration",
      runs={"quick": 40000, "thorough": 1600000}, block=250,
      technique="seeded writer sessions (configuration order, formats, counts scheduled by the PRNG) on a simulated disk; file-seam image checked by the real reader and an independent fixed-width parser",
      level_text=("Sampled writer sessions: the order in which title / box / position format / atom count are configured, "
-                 "writeline vs writelines, with-block vs close, declared vs back-filled count, 1..300 records with numbers around "
+                 "writeline vs writelines vs several chunks of either, numbers as Python or numpy scalars, with-block vs close, declared vs back-filled count, 1..300 records with numbers around "
                  "the five-digit limit and coordinates on rounding boundaries.  The disk image reconstructed from the file "
                  "seam's operation log is compared with the session by GroFile itself and by an independent parser."),
      level_note=("Trusted: the 25-line independent parser, Python float formatting.  Names are ASCII, non-blank, contain a "
@@ -70,7 +70,8 @@ _reg("C13", engine="grofile", level="exploration",
            "(decimals, velocities, declared count, box kind, record count class) signatures"),
      components={"GroFile (writer and reader)": REAL, "dump/extract_lattice_gro": REAL, "disk": "tmpfs file behind the file seam (operation log + image reconstruction)"},
      schedule_dimension="order of writer configuration calls; writeline/writelines; with/close",
-     probes=["custom_format", "velocities", "declared_count", "number_ge_99999", "triclinic_box"])
+     probes=["custom_format", "velocities", "declared_count", "number_ge_99999", "triclinic_box", "records_written_in_chunks",
+             "numpy_scalars_in_records"])
 
 _reg("C14", engine="grofile", level="fault_enumeration",
      runs={"quick": 4800, "thorough": 100000}, block=20,
@@ -81,7 +82,7 @@ _reg("C14", engine="grofile", level="fault_enumeration",
                  "truncation of the complete file (files <= 8 KiB; larger and shipped files: all line boundaries +-3 plus a random "
                  "sample).  Sessions themselves are sampled."),
      level_note=("Oracle: an image that ends at or before the first byte of the complete file's box line must make GroFile(path) "
-                 "(or reading its records) raise; an accepted image must return exactly the complete file's records.  Any "
+                 "raise; an accepted image must return exactly the complete file's records through readlines(), iteration and next() alike.  Any "
                  "exception type counts as rejection.  Names contain a letter that cannot occur in a float literal (a purely "
                  "numeric atom line is indistinguishable from a box line in this format).  Crash model: operation log replay "
                  "(what an unbuffered writer leaves); EIO/ENOSPC/lost pages are not injected -- no property speaks about them."),
@@ -95,7 +96,7 @@ _reg("C14", engine="grofile", level="fault_enumeration",
 _reg("C15", engine="topo", level="exploration",
      runs={"quick": 16000, "thorough": 600000}, block=100,
      technique="seeded generation of topology files with ground truth carried in the trace; loaded through the real parsers behind the file seam; recursion limit as an injected resource budget",
-     level_text=("Sampled .itp files (1..3000 atoms; trees, forests, cyclic graphs; gapped numbering; bonds spread over "
+     level_text=("Sampled .itp files (1..3000 atoms; trees, forests, connected cyclic graphs, several components with cycles; gapped numbering; bonds spread over "
                  "bonds/constraints/pairs in any order, occasionally the same section twice; comments, blank and preprocessor "
                  "lines; ragged spacing; a fixed share of 1000..3000-atom chains).  read_topology, MoleculeTop, are_connected "
                  "(under the default and a reduced stack budget) and MoleculeTop.copy are compared with the ground truth the "
@@ -116,7 +117,8 @@ _reg("C16", engine="topo", level="exploration",
                  "section names, content lines with no / empty / multiple trailing comments, comment-only lines including "
                  "commented-out preprocessor lines, blank and preprocessor lines and header text.  What the library wrote is "
                  "taken from the file seam's operation log and compared with its input section by section (content tokens, "
-                 "comment and preprocessor lines and their relative positions), then B against C for stability."),
+                 "comment and preprocessor lines and their relative positions), then B against C for stability.  The object "
+                 "written is the one read from a path, one read from an open file, or its copy() (before either write)."),
      level_note=("Trusted: the independent classifier (30 lines).  Not compared: blank lines, whitespace inside comments, an empty "
                  "comment (';' alone).  Section headers carry no trailing comment; no section is called 'header'."),
      rule=("one run = one five-step history; non-trivial = all five steps ran; distinct = distinct sets of line kinds present x "
@@ -124,7 +126,7 @@ _reg("C16", engine="topo", level="exploration",
      components={"ItpFile.write / ItpSection.__str__ / ItpLine.line": REAL, "read_topology": REAL,
                  "disk": "tmpfs files behind the file seam (written content taken from the seam's operation log)"},
      schedule_dimension="file history read/write/read/write/read",
-     probes=["repeated_section_name", "empty_trailing_comment", "commented_preprocessor", "multiple_trailing_comments", "shipped_file"])
+     probes=["repeated_section_name", "empty_trailing_comment", "commented_preprocessor", "multiple_trailing_comments", "shipped_file", "written_from_a_copy", "read_from_open_file"])
 
 
 _XMAP_NOTE = ("Trusted: the 40-line frame model (sim/models.py) and numpy.  Generic anchors make an angle >= 2e-3 rad with their frame "
@@ -190,7 +192,9 @@ _reg("C04", engine="xmap", level="exploration",
                  "molecules, of returned molecules and of arguments after the call.  After every call: equality with a freshly "
                  "built map (1e-12), with the model, with earlier results for the same argument; bitwise snapshots of argument, "
                  "construction molecules and all previously returned molecules; names / residue names / order of the target and "
-                 "residue numbers of the argument; TypeError for rejections and a usable map afterwards."),
+                 "residue numbers of the argument; TypeError for rejections and a usable map afterwards.  `equivalences` is read right "
+                 "after construction or only after the first call (reading it is itself an observation that could force a lazily "
+                 "built map), and histories may begin with rejections and mutations of the construction molecules."),
      level_note=("Mutations change coordinates only (names of the construction molecules are not touched). " + _XMAP_NOTE),
      rule=("one run = one map + one history; non-trivial = at least one call returned; distinct = distinct sequences of "
            "(operation kind, outcome)"),
@@ -220,7 +224,10 @@ _reg("C06", engine="mc", level="exploration",
                  "unseeded run practically never visits (accept-everything bursts, thousand-fold displacements, pi rotations, one "
                  "hub atom moved repeatedly).  Checked on the end state: the larger molecule only translated (untouched when it is "
                  "the end molecule), bond lengths of the mobile tree to 1e-9, all pairwise distances when single-atom moves are off, "
-                 "names/order, finiteness, caller's molecules bit-identical, repeatability."),
+                 "names/order, finiteness, caller's molecules bit-identical, repeatability.  About 6 % of the runs use a "
+                 "DEGENERATE mobile molecule (a hub atom whose bonded neighbours are exactly collinear, dyadic coordinates): the "
+                 "random single-atom displacement of the hub is then 0/0, the proposal non-finite, and it must never become the "
+                 "held configuration; the monitors of C07-C09 stand down for those proposals, the end-state oracles stay."),
      level_note=_MC_NOTE,
      rule=_MC_RULE,
      components={"Alignment.align_molecules": REAL, "_backend._minimize_molecules (python engine)": REAL,
@@ -229,7 +236,8 @@ _reg("C06", engine="mc", level="exploration",
                  "cython backend": "not installed; the pure-python engine is what runs",
                  "Molecule/MoleculeTop": REAL + " (MoleculeTop built without a file)"},
      schedule_dimension="the random stream (seed + override script) that decides every step of the search; knob values",
-     probes=["accepted_worse_proposal", "rigid_only_run", "new_minimum", "rejected_proposal"] )
+     probes=["accepted_worse_proposal", "rigid_only_run", "new_minimum", "rejected_proposal", "degenerate_mobile_geometry",
+             "non_finite_proposal_evaluated", "molecule_reassigned_before_alignment"])
 
 _reg("C07", level="exploration",
      parts=[{"engine": "mc", "runs": {"quick": 3200, "thorough": 120000}, "block": 16},
@@ -242,7 +250,8 @@ _reg("C07", level="exploration",
                  "index with every atom moved, generic coordinates, displacements 0.01..10 nm and bond tables that agree with the "
                  "geometry or are off by +-30 %; further runs use random trees and cyclic graphs up to 60 atoms with explicit and "
                  "random (seam-drawn) displacements; for cyclic graphs the exactly restored bonds must reach every atom from the "
-                 "moved one (traversal-agnostic)."),
+                 "moved one (traversal-agnostic).  The same tree and moved atom are also moved again with ANOTHER bond table (the "
+                 "species in another conformation) inside one run, and positions / displacement are also given as plain lists."),
      level_note=_MC_NOTE + "  The directed half is a pure function of its input: the harness contributes enumeration / seeded generation and replay only.",
      rule=_MC_RULE + "; directed runs: one batch of 12 enumerated trees (all moved atoms) or one random graph with 8 moves",
      components={"Alignment.align_molecules": REAL, "_backend._minimize_molecules (python engine)": REAL,
@@ -263,7 +272,8 @@ _reg("C08", level="exploration",
                  "argument must not be modified.  Directed: calculators for 1..40 x 1..25 atoms and empty / partial / duplicated-"
                  "fixed-atom / duplicated-pair / every-fixed-atom restraint lists are built once and evaluated on 10 unrelated "
                  "configurations each (incl. mobile atoms exactly on fixed atoms), against a pure-python double loop, plus invariance "
-                 "under a common rigid motion and under a consistent relabelling of atoms and restraints."),
+                 "under a common rigid motion and under a consistent relabelling of atoms and restraints.  The fixed array is also "
+                 "handed over with integer or float32 dtype (exactly representable values)."),
      level_note=_MC_NOTE + "  Evaluations where two mobile atoms are equidistant (1e-9) from a fixed atom are skipped (penalty exponent undefined).",
      rule=_MC_RULE,
      components={"Alignment.align_molecules": REAL, "_backend._minimize_molecules (python engine)": REAL,
@@ -284,7 +294,9 @@ _reg("C09", engine="mc", level="exploration",
                  "recorded u, proposal = translation / centroid rotation / single-atom move of the HELD configuration and of an "
                  "enabled type, rejection leaves state unchanged, a line printed exactly at each new minimum, the next move is "
                  "drawn iff the counter is below the budget (an extra draw raises inside the seam), the returned array is the held "
-                 "one bitwise."),
+                 "one bitwise; and the two energies compared at every step equal the reference definition of the measure "
+                 "(C08) for the held configuration and for the proposal as they are then (a calculator that drifts is a C09 "
+                 "violation too)."),
      level_note=_MC_NOTE + "  If the loop stops using the module-level names the seams watch, the run is counted as unobservable (probe) instead of judged.",
      rule=_MC_RULE,
      components={"Alignment.align_molecules": REAL, "_backend._minimize_molecules (python engine)": REAL,
@@ -305,13 +317,15 @@ _reg("C17", level="exploration",
                  "along p2 - p0, third normal to the plane when not collinear, origin p0, inputs unmodified), for generic, exactly "
                  "collinear (axes, diagonals, integer directions), numerically collinear and coincident-middle-point triples.  "
                  "Directed: axes of norm 1e-6..1e6 and angles in [-20, 20] with R(-t) = R(t)^T, R(a)R(b) = R(a+b) and independence of "
-                 "the axis length; point triples at scales 2^-10..2^10 of every kind above, given as lists or arrays."),
+                 "the axis length and of its form (tuple, int array, float32); point triples at scales 2^-10..2^10 of every kind "
+                 "above, given as lists or arrays.  A third of the batches reuses ONE buffer overwritten in place between calls."),
      level_note=("The directed part checks pure functions: seeded generation against closed-form oracles, nothing more.  Triples "
                  "with an angle in [1e-9, 1e-3) rad are not judged; tolerance 1e-12 (4e-12 for the product relation)."),
      rule="runs of the xmap and mc engines plus directed batches of 40 matrices / 40 frames; non-trivial = the run completed; distinct = distinct behaviour signatures",
      components={"rotation_matrix": REAL, "calcule_base": REAL, "callers": "ExchangeMap and the MC loop, real code"},
      schedule_dimension="call histories on a map; the random stream of the MC loop",
-     probes=["collinear_frame", "coincident_middle_point"])
+     probes=["collinear_frame", "coincident_middle_point", "axis_buffer_reused_in_place", "points_buffer_reused_in_place",
+             "axis_argument_forms"])
 
 
 _reg("C12", engine="grosys", level="exploration",
@@ -340,7 +354,10 @@ _reg("C18", engine="alias", level="exploration",
                  "residue numbers, names and residue names, assignment through a view incl. in-place +=} over single- and "
                  "multi-residue molecules.  After EVERY operation every tracked object's coordinates, velocities, numbers and names "
                  "are compared with the model: bitwise for everything the operation did not address, 1e-9 for what it did; plus "
-                 "centre displacement and distance preservation for rigid operations."),
+                 "centre displacement and distance preservation for rigid operations.  How often the harness LOOKS is itself scheduled "
+                 "(after every 1 / 2 / 4 operations or only at the end): constant reading would keep any read-refreshed cache of "
+                 "the library warm.  Re-centring also along one or two axes only (target sharing components exactly with the "
+                 "current centre), axis-parallel moves, list / tuple arguments."),
      level_note=("Trusted: the cell model (engines/alias.py).  Names / residue names are only changed on molecules whose topology the "
                  "model says is unshared (deep copies, fresh molecules): shallow copies share their topology by documented design and "
                  "the property claims name isolation for deep copies only.  Arrays given to setters are fresh (no caller-side aliasing)."),
@@ -348,7 +365,8 @@ _reg("C18", engine="alias", level="exploration",
      components={"Atom/AtomGro/Residue/Molecule/MoleculeTop": REAL, "System/SystemGro + parsers": REAL + " (real files on tmpfs)",
                  "Alignment setters": REAL},
      schedule_dimension="order of copy / view / mutate operations over the object graph",
-     probes=["rigid_op_on_multi_residue", "assignment_through_view", "system_handout", "alignment_stored", "names_changed_on_unshared_topology"])
+     probes=["rigid_op_on_multi_residue", "assignment_through_view", "system_handout", "alignment_stored", "names_changed_on_unshared_topology", "lazy_verification",
+             "move_to_sharing_components_with_centre"])
 
 
 _reg("C11", engine="system", level="exploration",
@@ -379,7 +397,8 @@ _reg("C10", engine="routing", level="exploration",
                  "guesser incl. unequal residue counts (must be refused).  (3) Manager level on generated multi-species systems loaded "
                  "from real files: per-species restraints / deformation types / hydrogen flags must reach exactly that species' "
                  "Alignment object; unknown names, species without an end molecule and malformed values must raise before the first "
-                 "alignment call."),
+                 "alignment call.  Restrictions handed over as already parsed (parse_restrictions=False) also come in another "
+                 "key order than the manager's and for a subset of the species."),
      level_note=("Stubs replace minimize_molecules (level 1) and Alignment.align_molecules (level 3) because the property is about "
                  "what reaches them; everything before them is real code.  A one-atom end molecule is not generated at level 1 "
                  "(the alignment returns before the optimiser).  The guesser part is plain enumeration of a pure function."),
@@ -389,7 +408,7 @@ _reg("C10", engine="routing", level="exploration",
                  "System / parsers": REAL + " (real files on tmpfs)"},
      schedule_dimension="none (configuration space: roles, filters, option dictionaries, injected malformed options)",
      probes=["role_swap_with_restraints", "restraint_dropped_with_hydrogen", "reindexing_with_restraints", "all_1600_length_pairs",
-             "several_species_routed", "pre_parsed_restrictions"])
+             "several_species_routed", "pre_parsed_restrictions", "pre_parsed_other_key_order", "pre_parsed_subset"])
 
 
 _reg("C05", engine="pipeline", level="exploration",
@@ -402,9 +421,11 @@ _reg("C05", engine="pipeline", level="exploration",
                  "molecule attached after the last map calculation) and onto existing outputs.  Checked: refusal leaves no "
                  "open-for-write event and an unchanged disk; success gives count = sum of target sizes, input order, atom numbers "
                  "1.., title, box (5e-6), input residue numbers, coordinates = species' map(input molecule) to the format precision "
-                 "(C02's invariants for 1-/2-atom references), byte-identical repetition."),
+                 "(C02's invariants for 1-/2-atom references), byte-identical repetition.  After every calculate_exchange_maps(s) the map of each attached species (reference >= 3 atoms) is applied "
+                 "to the alignment's own start molecule and must give anchor + s (end atom - anchor): the requested scale "
+                 "really is the scale of the map."),
      level_note=("Trusted: the 15-line output parser; the expected coordinates come from calling the species' own exchange map "
-                 "(C04 decides that this call is history-independent).  End molecules carry no velocities.  Systems stay below "
+                 "(C04 decides that this call is history-independent; the scale-law clause ties that map to the requested scale).  End molecules carry no velocities.  Systems stay below "
                  "99 999 atoms."),
      rule="one run = one world + one life-cycle history; non-trivial = the history ran to the end; distinct = distinct (operation, outcome) sequences",
      components={"Manager / Alignment / ExchangeMap": REAL, "System / SystemGro / Molecule": REAL, "GroFile writer + parsers": REAL,
@@ -412,7 +433,7 @@ _reg("C05", engine="pipeline", level="exploration",
                  "disk": "tmpfs directory behind the file seam"},
      schedule_dimension="order of life-cycle calls; position of premature extrapolations",
      probes=["successful_extrapolation", "small_reference_species", "unmapped_species_skipped", "repeated_extrapolation",
-             "overwrote_existing_output"])
+             "overwrote_existing_output", "scale_law_checked", "end_attached_through_attribute"])
 
 
 _reg("C20", engine="cli", level="exploration",
@@ -422,14 +443,16 @@ _reg("C20", engine="cli", level="exploration",
      technique="deterministic simulation of the CLI: random seam (same seed, digest comparison) for CLI-vs-library equivalence; set seam (scheduler-chosen iteration order of the discovery sets) and scheduler-chosen candidate order for discovery; real subprocesses under different hash seeds as a cross-check",
      level_text=("Sampled worlds (1..4 species incl. 1-/2-atom references, solvent, distractor files) plus the shipped BMIM/BF4 box.  "
                  "Equivalence runs: main() with explicit --mol triples in any order, --scale given or defaulted, -o given or the "
-                 "default mapped_<input> beside the input, against Manager.from_files / add_end_molecule / align_molecules / "
+                 "default mapped_<input> beside the input (absolute paths, paths relative to the working directory, input in a "
+                 "sub-directory; the working directory of the tool is the run's scratch directory), against Manager.from_files / add_end_molecule / align_molecules / "
                  "calculate_exchange_maps(scale) / extrapolate_system under the same seed: byte-identical files and equal "
                  "random-stream digests.  Discovery runs: the candidate list in scheduler-chosen order, the two classification sets "
                  "iterating in scheduler-chosen order (every order reachable), species complete / given explicitly (also listed) / "
                  "missing their end topology, end coordinates or both, excluded species, distractors (other extensions, files of a "
                  "species absent from the system, the system file itself, a start-resolution coordinate file): sort_molecules must "
                  "return exactly the complete species' three files for every order, never re-add explicit species, and main must "
-                 "map exactly the complete, non-excluded ones.  The first runs execute the unmodified CLI in real subprocesses "
+                 "map exactly the complete, non-excluded ones, and its output must equal, byte for byte, the library workflow fed "
+                 "with the explicit triples followed by the discovered ones in the order the tool reports.  The first runs execute the unmodified CLI in real subprocesses "
                  "under different PYTHONHASHSEED values with shuffled --auto lists."),
      level_note=("No duplicate topologies of one molecule name and no malformed files are generated (the statement's 'its files' is "
                  "then undefined).  STEPS_FACTOR is lowered to 1..2 (class attribute) in both workflows alike.  Outputs of two "
@@ -441,4 +464,4 @@ _reg("C20", engine="cli", level="exploration",
                  "process mode": "real `python -c '...; main()'` subprocesses of the working tree under chosen PYTHONHASHSEED"},
      schedule_dimension="candidate-list order, set iteration order, hash seed, order of --mol triples",
      probes=["incomplete_species_among_candidates", "excluded_species", "explicit_plus_auto", "default_output_name", "real_process_runs",
-             "same_species_order_across_hash_seeds"])
+             "same_species_order_across_hash_seeds", "auto_run_compared_with_library", "relative_paths_cwd", "relative_paths_subdir"])
